@@ -109,6 +109,10 @@ func genMutants(img []byte, tgs []seedTG, r *gen.R, thorough bool) []mutant {
 		add(fmt.Sprintf("truncated to %d of %d bytes", cut, n), append([]byte{}, img[:cut]...))
 	}
 	if stride > 1 {
+		// always include every cut inside the leading STATUS message
+		for cut := 1; cut <= 12 && cut < n; cut++ {
+			add(fmt.Sprintf("truncated to %d of %d bytes", cut, n), append([]byte{}, img[:cut]...))
+		}
 		// always include the record boundaries and their neighbours
 		for _, t := range tgs {
 			for _, b := range []int{t.prepStart, t.recStart, t.recStart + 1, t.recStart + 9, t.recStart + 9 + 16, t.recEnd - 16, t.recEnd, t.commitEnd} {
